@@ -137,6 +137,13 @@ def key_part(ctx):
     for o, (body, kw, va, vb) in OPTIONS.items():
         jobs.append((o, case_for(o, va, body, kw), case_for(o, vb, body, kw)))
     jobs.append(("body", case_for(None, None, "<a>one</a>", {}), case_for(None, None, "<a>two</a>", {})))
+    # bodies that differ only slightly (line endings in XML mode, blanks, letter case, a trailing newline, an accent)
+    for nm, ba, bb in (("body-xml-crlf", '<?xml version="1.0"?>\r\n<a>x\r\ny</a>', '<?xml version="1.0"?>\n<a>x\ny</a>'),
+                       ("body-xml-cr", '<?xml version="1.0"?>\n<a>x\ry</a>', '<?xml version="1.0"?>\n<a>x\ny</a>'),
+                       ("body-blanks", "<a>x  y</a>", "<a>x y</a>"), ("body-case", "<a>X</a>", "<a>x</a>"),
+                       ("body-trailing-newline", "<a>x</a>\n", "<a>x</a>"), ("body-accent", "<a>\u00e9</a>", "<a>e</a>"),
+                       ("body-tab", "<a>x\ty</a>", "<a>x y</a>")):
+        jobs.append((nm, case_for(None, None, ba, {}), case_for(None, None, bb, {})))
     jobs.append(("class", case_for(None, None, "<b>${x}</b>&amp;", {"x": "<"}), case_for(None, None, "<b>${x}</b>&amp;", {"x": "<"}, cls="PageTextTemplate")))
     fd = tempfile.mkdtemp(prefix="c15f_")
     try:
